@@ -608,7 +608,7 @@ func init() {
 	register("C16", func(env *Env) error {
 		env.Header = tcpHeader + "Corr.C16."
 		env.ShardSize = 120
-		env.Rule = "limits 64, 100, 1000, 4096 x a frame of size around limit, limit+1, 2*limit, 2*limit+1, 2*limit+2 and 10*limit at every position 0..k of a stream of small frames x coalescing patterns (everything at once, chunks of 1/7/limit bytes, chunk boundaries just before and after the big frame); per Receive the bytes taken from the injected connection are counted exactly; plus transports handed out by a real listener and returned by DialTcp, configured with limits none/200/4096/65536, with and without a TraceWriter, on a loopback socket (reported limit, frames within the limit and beyond twice the limit, first and behind three limits of small frames). Non-trivial: the stream contains a frame larger than the limit. Distinct by printed case."
+		env.Rule = "limits 64, 100, 1000, 4096 x a frame of size around limit, limit+1, 2*limit, 2*limit+1, 2*limit+2 and 10*limit at every position 0..k of a stream of small frames x coalescing patterns (everything at once, chunks of 1/7/limit bytes, chunk boundaries just before and after the big frame); per Receive the bytes taken from the injected connection are counted exactly; an oversized frame trickling in under Receive contexts that end in the middle of it; plus transports handed out by a real listener and returned by DialTcp, configured with limits none/200/4096/65536, with and without a TraceWriter, on a loopback socket (reported limit, frames within the limit and beyond twice the limit, first and behind three limits of small frames). Non-trivial: the stream contains a frame larger than the limit. Distinct by printed case."
 		if ok, err := tcpReplay(env); ok || err != nil {
 			return err
 		}
@@ -640,6 +640,21 @@ func init() {
 						env.NonTrivial(fmt.Sprintf("%s/%d", c.term, v))
 					}
 				}
+			}
+		}
+		// an oversized envelope trickling in while the Receive contexts end in the middle of it, Receive after Receive:
+		// it must never be accepted, however many receives it takes
+		for _, L := range []int{100, 1000} {
+			for _, step := range []int{L / 2, L - 1} {
+				sizes := []int{minFrame(0) + 4, 10 * L, minFrame(2) + 2}
+				var plan []string
+				for got := 0; got < sizes[0]+sizes[1]+sizes[2]; got += step {
+					plan = append(plan, fmt.Sprintf("chunk:%d", step), "ctx")
+				}
+				c := runReadCase(L, sizes, plan, len(plan)/2+3)
+				env.Add(c.term, c)
+				env.Count("trickled-under-expiring-contexts")
+				env.NonTrivial(c.term)
 			}
 		}
 		limits := []int{64, 100, 1000, 4096}
